@@ -93,6 +93,11 @@ bool Instance::parse_input_transaction(const char* txdata, int select_index) {
                 return false;
             }
         }
+        if (txin_vout_index < 0 || (size_t)txin_vout_index >= txin->vout.size()) {
+            fprintf(stderr, "error: input #%" PRId64 " of the transaction spends output #%" PRId64 " of the input transaction, which only has %zu output(s)\n", txin_index, txin_vout_index, txin->vout.size());
+            txin_index = txin_vout_index = -1;
+            return false;
+        }
     }
     return true;
 }
